@@ -1,9 +1,21 @@
 import Driver.Loop
 import Midgard.Model.Antex
 import Midgard.Spec.Antex14
+import Midgard.Spec.AntexFile
 
-/-! Driver for C15: `c15 parse <hex text>` (the parser model) and `c15 render <records>` (the
-ANTEX 1.4 spec renderer). -/
+/-! Driver for C15: `c15 parse <hex text>` (the parser model), `c15 render <records>` (the
+ANTEX 1.4 spec renderer) and
+
+`c15 model <tokens of an abstract file>` → `wf=<0|1> thm=<0|1> text=<hex of render F> ;; <parse of that text>`: the abstract
+file `F` of `Spec/AntexFile.lean` is rendered (`render F`), parsed by the model (`parseText`) and compared with
+`calibrations F` (`thm` = the instance of `Props.C15.file_roundtrip` evaluates to true).
+Wire format (blank separated; texts hex, `-` = absent):
+  ver sys pcv refant refserial  n n×comment  n n×comment  nAnt nAnt×ant  n n×inert
+  ant   := typ code sat cospar dazi zen1 zen2 dzen numfreq date date  nF nF×freq  nR nR×(code sec)  nD nD×(n n×inert)
+  date  := - | d y mo d h mi sec
+  freq  := code sec (- | r sec)
+  sec   := north east up  n n×val  nRows nRows×(azimuth n n×val)
+  inert := c text | m method agency num date | s code | b -/
 namespace Driver.C15
 open Midgard.Proto Midgard.Text Midgard.Antex Midgard.ChainParser
 
@@ -52,6 +64,72 @@ def parseRecord? (tok : String) : Option (String × List Str) :=
       pure (k, cs.map String.toList)
   | _ => none
 
+namespace Wire
+open Midgard.Spec.AntexFile Midgard.Decimal
+
+abbrev P := StateT (List String) Option
+
+def tok : P String := fun ts => match ts with | t :: r => some (t, r) | [] => Option.none
+def hex : P Str := do let t ← tok; (decodeHex? t).map String.toList
+def nat : P Nat := do let t ← tok; t.toNat?
+def many {α} (p : P α) : Nat → P (List α)
+  | 0 => pure []
+  | n + 1 => do let a ← p; let r ← many p n; pure (a :: r)
+def counted {α} (p : P α) : P (List α) := do let n ← nat; many p n
+
+/-- a number cell: the value is what the printed text denotes (0 when it denotes nothing: then `wf` is false) -/
+def num : P NumCell := do let t ← hex; pure ⟨t, (parseFloat t).getD 0⟩
+def intc : P IntCell := do let t ← hex; pure ⟨t, (parseInt? t).getD 0⟩
+
+def date : P (Option DateM) := do
+  match (← tok) with
+  | "-" => pure Option.none
+  | "d" =>
+    let y ← intc; let mo ← intc; let d ← intc; let h ← intc; let mi ← intc; let s ← num
+    pure (some ⟨y, mo, d, h, mi, s, (datetimeMinutes? y.val mo.val d.val h.val mi.val).getD 0⟩)
+  | _ => failure
+
+def sec : P SecM := do
+  let n ← num; let e ← num; let u ← num
+  let noazi ← counted num
+  let rows ← counted (do let az ← hex; let vs ← counted num; pure (az, vs))
+  pure ⟨n, e, u, noazi, rows⟩
+
+def freq : P FreqM := do
+  let code ← hex
+  let body ← sec
+  match (← tok) with
+  | "-" => pure ⟨code, body, Option.none⟩
+  | "r" => do let r ← sec; pure ⟨code, body, some r⟩
+  | _ => failure
+
+def inert : P Inert := do
+  match (← tok) with
+  | "c" => do let t ← hex; pure (.comment t)
+  | "m" => do let a ← hex; let b ← hex; let c ← hex; let d ← hex; pure (.meth a b c d)
+  | "s" => do let c ← hex; pure (.sinex c)
+  | "b" => pure .blank
+  | _ => failure
+
+def ant : P AntM := do
+  let typ ← hex; let code ← hex; let sat ← hex; let cospar ← hex
+  let dazi ← num; let z1 ← num; let z2 ← num; let dz ← num
+  let nf ← hex
+  let vf ← date; let vu ← date
+  let freqs ← counted freq
+  let rms ← counted (do let c ← hex; let b ← sec; pure (c, b))
+  let deco ← counted (counted inert)
+  pure ⟨typ, code, sat, cospar, dazi, z1, z2, dz, nf, vf, vu, freqs, rms, deco⟩
+
+def file : P FileM := do
+  let ver ← hex; let sys ← hex; let pcv ← hex; let ra ← hex; let rs ← hex
+  let c1 ← counted hex; let c2 ← counted hex
+  let ants ← counted ant
+  let tr ← counted inert
+  pure ⟨ver, sys, pcv, ra, rs, c1, c2, ants, tr⟩
+
+end Wire
+
 def handle : List String → Option String
   | ["c15", "parse", h] => do
     let text ← decodeHex? h
@@ -62,6 +140,20 @@ def handle : List String → Option String
     let rs ← recs.mapM parseRecord?
     let text ← Midgard.Spec.Antex14.renderFile rs
     pure (hx text)
+  | "c15" :: "model" :: toks => do
+    let (F, rest) ← Wire.file toks
+    if !rest.isEmpty then failure
+    let text := Midgard.Spec.AntexFile.render F
+    let parsed := parseText text
+    let thm := match parsed, Midgard.Spec.AntexFile.calibrations F with
+      | .ok a, .ok b => decide (a = b)
+      | .error a, .error b => decide (a = b)
+      | _, _ => false
+    let b (x : Bool) : String := if x then "1" else "0"
+    pure (s!"wf={b F.wf} thm={b thm} text={hx text} ;; " ++
+      (match parsed with
+       | .ok s => showState s
+       | .error e => showErr e))
   | _ => none
 
 end Driver.C15
